@@ -9,7 +9,7 @@ CONSTANTS
   Users <- C_Users
   Cfgs <- C_CfgsWide
   MaxCalls = 4
-  MaxFlush = 2
+  MaxFlush = 1
   MaxReopen = 0
   MaxCrash = 0
   MaxFaults = 0
